@@ -108,7 +108,8 @@ def main(argv):
             res = {}
             for name in sorted(os.listdir(spec['dir_in'])):
                 p = os.path.join(spec['dir_in'], name)
-                single = WriteLAS.convert_dir_or_file_to_las(p, os.path.join(spec['dir_out'], name), False, args[0], args[1], args[2], args[3], args[4], wrapped_conversion)
+                # a fresh channel set per file: this run is the per-file ground truth
+                single = WriteLAS.convert_dir_or_file_to_las(p, os.path.join(spec['dir_out'], name), False, args[0], args[1], set(spec['channels']), args[3], args[4], wrapped_conversion)
                 res.update(single)
         else:
             raise ValueError(spec['mode'])
